@@ -23,6 +23,15 @@ PRELUDE = """
 use std::sync::{Arc, Mutex};
 use unimock::*;
 use vh::gsupport::{ev, take_events};
+
+/// An argument whose Debug leaves a trace: a call that does not fail renders nothing.
+pub struct Loud(pub u8);
+impl core::fmt::Debug for Loud {
+    fn fmt(&self, f: &mut core::fmt::Formatter<'_>) -> core::fmt::Result {
+        ev("BAD:Debug of an argument ran although the call did not fail");
+        write!(f, "Loud({})", self.0)
+    }
+}
 """
 
 
@@ -286,6 +295,11 @@ def shapes(tier):
         if tier == "quick" and asy == "async_fn" and recv not in ("ref", "mut"):
             continue
         out.append(dict(recv=recv, params=p, form="selfperm", n=1, pos=0, asy=asy, mode=mode))
+    # an argument whose Debug leaves a trace, on calls that reach the real function in every way
+    for recv, asy, mode in itertools.product(RECVS, ["sync", "async_fn"], ["strict", "partial", "partial_unmatched"]):
+        if tier == "quick" and asy == "async_fn" and recv not in ("ref", "mut"):
+            continue
+        out.append(dict(recv=recv, params=["u8", "loud"], form="path", n=1, pos=0, asy=asy, mode=mode))
     # provided methods with a registered function, a skipped static function in front, and the
     # mentioned-but-unmatched fall-through of partial mocks
     for recv, p, asy, mode, dflt, static_first in itertools.product(
